@@ -22,7 +22,8 @@ FORMS = [b'#c\n', b'#\n', b'//c\n', b'//\n', b'/*c*/', b'/**/', b'/***/', b'/* a
          b'# c\r\n', b'/*\r\n c\r\n*/', b'#\x0c c \x0b\n',      # CR, FF and VT are white space: trimmed like blanks
          b'#/p\n', b'//#d\n', b'##// b\n', b'//*y\n', b'#"q\n', b"//'r\n",
          b'/* a *\n b */', b'/**\n * d\n */', b'/***\n**/',
-         b'# c#\n', b'// d/\n', b'## e ##\n', b'// f //\n']      # the text of a one-line comment may END in the marker as well     # only the marker that opened the comment is dropped; the text may begin with the other one
+         b'# c#\n', b'// d/\n', b'## e ##\n', b'// f //\n',
+         b'/* a  \n b */', b'/* a\t\n \n b */']      # the text of a one-line comment may END in the marker as well     # only the marker that opened the comment is dropped; the text may begin with the other one
 CM = CFGF['COMMENTS']
 BATCH = 300
 
